@@ -1,1 +1,201 @@
-fn main(){}
+//! Conformance harness binding the TLA+ specifications in /verif/spec to the real crates.
+//!
+//!   harness replay <stage> [--seed N] [--tlclog FILE] [--out FILE]
+//!       reads TLC stdout on stdin; every `<<"REPLAY", "<json>">>` line is one abstract case
+//!       with the specification's predicted observables; each is concretised, executed against
+//!       the real code in an isolated worker and compared.  Other lines go to --tlclog.
+//!   harness cases <stage> [--seed N] [--out FILE]
+//!       same, but stdin is plain JSON lines (used for --replay of a stored violation).
+//!   harness record <stage> [--seed N] [--n N] --trace FILE
+//!       drives the real objects with seeded random histories, writes an ndjson trace for TLC.
+//!   harness worker <stage> <seed> [--trace-api]     (internal)
+mod conc;
+mod iso;
+mod stages;
+
+use serde_json::{json, Value};
+use std::collections::{BTreeMap, HashSet};
+use std::io::{BufRead, Write};
+
+fn arg(args: &[String], name: &str) -> Option<String> {
+    args.iter().position(|a| a == name).and_then(|i| args.get(i + 1).cloned())
+}
+
+fn decode_replay(line: &str) -> Option<String> {
+    let rest = line.strip_prefix("<<\"REPLAY\", ")?;
+    let body = rest.strip_suffix(">>")?;
+    serde_json::from_str::<String>(body).ok()
+}
+
+struct Agg {
+    cases: u64,
+    evals: u64,
+    keys: HashSet<u64>,
+    viol_count: u64,
+    viols: Vec<Value>,
+    viol_seen: HashSet<String>,
+    drift_count: u64,
+    drift_samples: Vec<Value>,
+    drift_kinds: BTreeMap<String, u64>,
+    samples: Vec<Value>,
+    counters: BTreeMap<String, u64>,
+}
+
+fn hash_str(s: &str) -> u64 {
+    use std::hash::{Hash, Hasher};
+    let mut h = std::collections::hash_map::DefaultHasher::new();
+    s.hash(&mut h);
+    h.finish()
+}
+
+fn absorb(agg: &mut Agg, stage: &str, case: &str, o: &Value) {
+    agg.cases += 1;
+    if let Some(f) = o.get("fatal").and_then(|f| f.as_str()) {
+        let api = o.get("api").and_then(|a| a.as_str()).unwrap_or("unknown");
+        agg.evals += 1;
+        for prop in stages::fatal_props(stage, api) {
+            agg.viol_count += 1;
+            let sig = format!("{}|{}|{}", prop, api, f);
+            let casev: Value = serde_json::from_str(case).unwrap_or(Value::Null);
+            let feats = stages::features(stage, &casev);
+            let sig2 = format!("{}|{:?}", sig, feats);
+            if agg.viol_seen.insert(sig2) || agg.viols.len() < 50 {
+                if agg.viols.len() < 400 {
+                    agg.viols.push(json!({"prop": prop, "pred": "total", "api": api, "symptom": f,
+                        "features": feats, "case": casev,
+                        "detail": o.get("detail").cloned().unwrap_or(Value::Null), "stage": stage}));
+                }
+            }
+        }
+        return;
+    }
+    agg.evals += o.get("evals").and_then(|e| e.as_u64()).unwrap_or(1);
+    if o.get("nontrivial").and_then(|b| b.as_bool()).unwrap_or(false) {
+        if let Some(k) = o.get("key").and_then(|k| k.as_str()) {
+            agg.keys.insert(hash_str(k));
+        }
+    }
+    if let Some(c) = o.get("counters").and_then(|c| c.as_object()) {
+        for (k, v) in c {
+            *agg.counters.entry(k.clone()).or_insert(0) += v.as_u64().unwrap_or(0);
+        }
+    }
+    if agg.samples.len() < 3 {
+        if let Some(s) = o.get("sample") {
+            if !s.is_null() {
+                agg.samples.push(s.clone());
+            }
+        }
+    }
+    if let Some(vs) = o.get("viol").and_then(|v| v.as_array()) {
+        for v in vs {
+            agg.viol_count += 1;
+            let sig = format!("{}|{}|{}|{}|{}", v["prop"], v["api"], v["symptom"], v["pred"], v["features"]);
+            let fresh = agg.viol_seen.insert(sig);
+            if (fresh || agg.viols.len() < 50) && agg.viols.len() < 400 {
+                let mut v = v.clone();
+                v["case"] = serde_json::from_str(case).unwrap_or(Value::Null);
+                v["stage"] = json!(stage);
+                agg.viols.push(v);
+            }
+        }
+    }
+    if let Some(ds) = o.get("drift").and_then(|v| v.as_array()) {
+        for d in ds {
+            agg.drift_count += 1;
+            let kind = d.get("kind").and_then(|k| k.as_str()).unwrap_or("?").to_string();
+            let n = agg.drift_kinds.entry(kind).or_insert(0);
+            *n += 1;
+            if *n <= 3 && agg.drift_samples.len() < 30 {
+                let mut d = d.clone();
+                d["case"] = serde_json::from_str(case).unwrap_or(Value::Null);
+                agg.drift_samples.push(d);
+            }
+        }
+    }
+}
+
+fn replay(stage: &str, args: &[String], plain: bool) {
+    let seed: u64 = arg(args, "--seed").and_then(|s| s.parse().ok()).unwrap_or(0);
+    let mut tlclog: Option<std::fs::File> = arg(args, "--tlclog").map(|p| std::fs::File::create(p).unwrap());
+    let out = arg(args, "--out");
+    let limit: Option<u64> = arg(args, "--limit").and_then(|s| s.parse().ok());
+    let mut agg = Agg { cases: 0, evals: 0, keys: HashSet::new(), viol_count: 0, viols: vec![], viol_seen: HashSet::new(),
+        drift_count: 0, drift_samples: vec![], drift_kinds: BTreeMap::new(), samples: vec![], counters: BTreeMap::new() };
+    let mut worker = None;
+    let mut batch: Vec<String> = Vec::new();
+    let stdin = std::io::stdin();
+    let t0 = std::time::Instant::now();
+    let flush = |batch: &mut Vec<String>, agg: &mut Agg, worker: &mut Option<iso::Worker>| {
+        if batch.is_empty() {
+            return;
+        }
+        let res = iso::run_batch(stage, seed, batch, worker);
+        for (c, o) in batch.iter().zip(res.iter()) {
+            absorb(agg, stage, c, o);
+        }
+        batch.clear();
+    };
+    let mut skipped = 0u64;
+    for line in stdin.lock().lines() {
+        let line = match line { Ok(l) => l, Err(_) => break };
+        let case = if plain {
+            if line.trim().is_empty() { None } else { Some(line.clone()) }
+        } else {
+            decode_replay(&line)
+        };
+        match case {
+            Some(c) => {
+                if let Some(l) = limit {
+                    if agg.cases + batch.len() as u64 >= l { skipped += 1; continue; }
+                }
+                batch.push(c);
+                if batch.len() >= 4000 {
+                    flush(&mut batch, &mut agg, &mut worker);
+                }
+            }
+            None => {
+                if let Some(f) = tlclog.as_mut() {
+                    let _ = writeln!(f, "{}", line);
+                }
+            }
+        }
+    }
+    flush(&mut batch, &mut agg, &mut worker);
+    iso::shutdown(&mut worker);
+    let res = json!({
+        "stage": stage, "seed": seed, "cases": agg.cases, "evaluations": agg.evals,
+        "distinct_nontrivial": agg.keys.len(), "violations": agg.viol_count, "viols": agg.viols,
+        "drift": agg.drift_count, "drift_kinds": agg.drift_kinds, "drift_samples": agg.drift_samples,
+        "samples": agg.samples, "counters": agg.counters, "skipped": skipped,
+        "wall_s": t0.elapsed().as_secs_f64(),
+    });
+    let text = serde_json::to_string_pretty(&res).unwrap();
+    match out {
+        Some(p) => std::fs::write(p, text).unwrap(),
+        None => println!("{}", text),
+    }
+}
+
+fn main() {
+    let args: Vec<String> = std::env::args().collect();
+    if args.len() < 3 {
+        eprintln!("usage: harness replay|cases|record|worker <stage> ...");
+        std::process::exit(2);
+    }
+    let stage = args[2].clone();
+    match args[1].as_str() {
+        "worker" => {
+            let seed: u64 = args.get(3).and_then(|s| s.parse().ok()).unwrap_or(0);
+            let trace = args.iter().any(|a| a == "--trace-api");
+            iso::worker_main(&stage, seed, trace);
+        }
+        "replay" => replay(&stage, &args, false),
+        "cases" => replay(&stage, &args, true),
+        "record" => stages::record(&stage, &args),
+        _ => {
+            eprintln!("unknown command");
+            std::process::exit(2);
+        }
+    }
+}
